@@ -102,7 +102,7 @@ def dyadic(rng, lo, hi, bits=6):
 def gen_lens(rng, nsurf=None, allow_mirror=True, allow_conic=True, allow_asphere=False, allow_tilt=False,
              finite_object=None, ap_types=('EPD', 'imageFNO', 'objectNA'), catalog=False,
              field_types=('angle', 'object_height'), dy=False, stop='any', absorbing=False,
-             apertures=False, coatings=False, max_field_deg=8.0, poly=False):
+             apertures=False, coatings=False, max_field_deg=8.0, poly=False, immersed_image=False):
     """Random sequential lens.  Returns a descriptor.  1..12 optical surfaces + object + image."""
     n = nsurf or rng.randint(1, 12)
     if finite_object is None:
@@ -147,7 +147,8 @@ def gen_lens(rng, nsurf=None, allow_mirror=True, allow_conic=True, allow_asphere
                         in_glass = False
             else:
                 s['material'] = {'kind': 'air'}
-        if i == n and in_glass:       # the image space is air (the image surface is made with material 'air')
+        if i == n and in_glass and not immersed_image:
+            # the image space is air (the image surface is made with material 'air')
             s['material'] = {'kind': 'air'}
             in_glass = False
         t = dyadic(rng, 1, 12, 4) if in_glass else dyadic(rng, 0.5, 40, 4)
@@ -200,6 +201,9 @@ def gen_lens(rng, nsurf=None, allow_mirror=True, allow_conic=True, allow_asphere
         surfaces.append(s)
     # image surface: plane; if the last medium is glass keep it (the factory makes it an ordinary surface)
     img = {'index': n + 1, 'radius': INF, 'thickness': 0, 'material': {'kind': 'air'}}
+    if immersed_image and in_glass:
+        # image formed inside the last medium (immersion): the image surface has the same medium on both sides
+        img['material'] = dict(surfaces[-1]['material'])
     surfaces.append(img)
     ap_type = rng.choice([a for a in ap_types if not (a == 'objectNA' and not finite_object)] or ['EPD'])
     if ap_type == 'EPD':
